@@ -141,20 +141,47 @@ def rule_r2(prog, res) -> None:
 
 def rule_r3(prog, res) -> None:
     """id-set and alignment guards dominate linkage"""
-    fc = prog.func("PatchLinkage.from_catalogs")
+    from ..inline import inlined
+
+    fc = inlined(prog, prog.func("PatchLinkage.from_catalogs"), desugar=True, keep={"get_max_angle", "check_patch_conistency"})
     res.touch(fc)
     cfg = cfg_of(fc.node)
     loops = [n for n in cfg.nodes if n.kind == "for" and "center" in unparse(n.ast.target)]
     if not loops:
         raise AnalysisError("C12.R3: link loop not found")
     idt = [t for t in cfg.nodes if t.kind == "test" and "keys()" in unparse(t.expr) and any(raise_dominated_by(cfg, b) for pol, b in branch_nodes_of(cfg, t).items() if pol)]
+    # the same guard written as a loop over the other catalogs (`for cat in others: if ids differ: raise`) is decided on
+    # the symbolic store: every returning path has passed "ids of an element of the others == ids of the first", the other outcome raises
+    from .. import symx
+
+    fc0 = prog.func("PatchLinkage.from_catalogs")
+    vararg0 = fc0.node.args.vararg.arg if fc0.node.args.vararg else None
+    spaths = symx.explore(prog, fc0, inline=symx.inline_private_helpers(prog, public={"get_max_angle", "check_patch_conistency"}), skip_tests=("logger",), env={"on_root()": True})
+
+    def ids_compare(t):
+        for x in ast.walk(t):
+            if isinstance(x, ast.Compare) and len(x.ops) == 1 and isinstance(x.ops[0], (ast.NotEq, ast.Eq)):
+                sides = [x.left, x.comparators[0]]
+                if all(any(isinstance(y, ast.Call) and isinstance(y.func, ast.Attribute) and y.func.attr == "keys" for y in ast.walk(sd)) for sd in sides) and vararg0 and any(
+                    symx.mentions(sd, lambda y: isinstance(y, ast.Name) and y.id == vararg0) for sd in sides
+                ):
+                    return x
+        return None
+
+    sym_guard = False
+    rets_ = [p for p in spaths if p.outcome == "return"]
+    if rets_ and all(any(ids_compare(t) is not None for t, pol_, _ in symx.raising_guards(spaths, p)) for p in rets_):
+        sym_guard = True
     chk = [n for n in cfg.nodes if any(t.name == "check_patch_conistency" for c in n.calls() for t in prog.resolve_call(fc, c).funcs())]
-    ok_ids = idt and all(any(cfg.dominates(t, l) for t in idt) for l in loops)
+    ok_ids = (idt and all(any(cfg.dominates(t, l) for t in idt) for l in loops)) or sym_guard
+    if sym_guard and not idt:
+        guard_t = next(ids_compare(t) for p in rets_ for t, pol_, _ in symx.raising_guards(spaths, p) if ids_compare(t) is not None)
+        idt = [type("T", (), {"expr": ast.Call(func=ast.Name(id="any", ctx=ast.Load()), args=[guard_t], keywords=[]), "ast": fc.node})()]
     ok_chk = chk and all(any(cfg.dominates(c, l) for c in chk) for l in loops)
     if ok_ids:
         t = idt[0].expr
         cmp_ = [x for x in ast.walk(t) if isinstance(x, ast.Compare)]
-        neq = cmp_ and isinstance(cmp_[0].ops[0], ast.NotEq) and "any(" in unparse(t)
+        neq = cmp_ and isinstance(cmp_[0].ops[0], ast.NotEq) and ("any(" in unparse(t) or sym_guard)
         if neq:
             res.ok("C12.R3", res.site(fc, "id sets"), "raises if any catalog's patch-id set differs, before links are computed")
         else:
@@ -230,7 +257,15 @@ def rule_r3(prog, res) -> None:
                     good = True
                 if any("get_centers" in unparse(c) for c in num_dist):
                     per_cat = True
-                if vararg and symx.mentions(l.left, lambda y: isinstance(y, ast.Call) and isinstance(y.func, ast.Name) and y.func.id == symx.ELEM and y.args and symx.mentions(y.args[0], lambda z: isinstance(z, ast.Name) and z.id == vararg)):
+                def whole(e) -> bool:
+                    """the iterable is all of the other catalogs (the vararg itself, possibly re-ordered / copied)"""
+                    if isinstance(e, ast.Name):
+                        return e.id == vararg
+                    if isinstance(e, ast.Call) and isinstance(e.func, ast.Name) and e.func.id in ("list", "tuple", "sorted", "reversed", "iter", "set") and e.args:
+                        return whole(e.args[0])
+                    return False
+
+                if vararg and symx.mentions(l.left, lambda y: isinstance(y, ast.Call) and isinstance(y.func, ast.Name) and y.func.id == symx.ELEM and y.args and whole(y.args[0])):
                     in_loop = True
     if good and rt is not None and rt <= 1 and in_loop and per_cat:
         res.ok("C12.R3", res.site(cc), f"for every other catalog: raises if centre distance / radius > rtol (= {rt} <= 1)")
